@@ -12,13 +12,19 @@ ENUM_THOROUGH = ENUM + ['h_e_hist3']
 
 
 def replay(case):
+    if case['harness'].endswith('.t'):
+        from .. import tkernels
+        return tkernels.replay_case(case)
     return xengine.replay(case)
 
 
 def run(tier):
     run = Run('C11', tier)
     run.explanation = (
-        'Engine X. Symbolic harnesses: BlockOfVariables (1-3 dimensions) and BinaryMappingVariables are created on a formula that '
+        'Engine T (AST -> z3): BlockOfVariables.__init__/_unsafe_index_to_lit/to_index and the BinaryMappingVariables kernels are re-parsed from the '
+        'current source, evaluated symbolically and proved for UNBOUNDED symbolic sizes, offset and index (1-2 symbolic dimensions plus concrete '
+        'trailing dimensions; 3 symbolic dimensions partly inconclusive): identifiers contiguous, index->identifier->index on +/- literals, '
+        'identifier->index->identifier, lexicographic = identifier order. Engine X. Symbolic harnesses: BlockOfVariables (1-3 dimensions) and BinaryMappingVariables are created on a formula that '
         'already has an UNBOUNDED symbolic number of variables; the index and the sign of the literal are symbolic; z3 confirms '
         'index -> identifier -> index, identifier -> index -> identifier for any symbolic literal (ValueError outside the group), '
         'contiguity, lexicographic = identifier order (closed mixed-radix form), rejection of indices outside the ranges, and that '
@@ -44,4 +50,9 @@ def run(tier):
                     V.GraphEdgesVariables.indices, V.DiGraphEdgesVariables.indices, V.VariablesManager.all_variable_labels,
                     V.VariablesManager._add_variable_group, V.BaseVariableGroup.__call__)
     run.add(part, {'harness': 'c11.x', 'engine': 'X', 'conditions': len(conds)})
+    from ..core import Part
+    from .. import tkernels
+    pt = Part()
+    tkernels.run_all(pt, tier, ('block', 'binmap'), 'c11.t')
+    run.add(pt, {'harness': 'c11.t', 'engine': 'T (AST -> z3, unbounded integers)'})
     return run.finish()
